@@ -918,3 +918,67 @@ def random_module(rng, lowered_exprs=False, maxw=9):
     m.sync += sg.stmts(regs, rng.randint(1, 3))
     ios = set(ins) | set(regs[:1]) | set(combs[:2]) | {m.cd_sys.clk, m.cd_sys.rst}
     return m, ios
+
+
+# ----------------------------------------------------------------------------------------------------------
+# Real cores: preparing a DUT for convert / simulation
+# ----------------------------------------------------------------------------------------------------------
+
+def public_signals(dut):
+    """Signals reachable as attributes (or Record fields) of the DUT object."""
+    out = []
+    seen = set()
+
+    def add(s):
+        if isinstance(s, Signal) and id(s) not in seen:
+            seen.add(id(s))
+            out.append(s)
+    for v in vars(dut).values():
+        if isinstance(v, Signal):
+            add(v)
+        elif hasattr(v, "flatten") and hasattr(v, "layout"):
+            for s in v.flatten():
+                add(s)
+        elif isinstance(v, (list, tuple)):
+            for e in v:
+                if isinstance(e, Signal):
+                    add(e)
+                elif hasattr(e, "flatten") and hasattr(e, "layout"):
+                    for s in e.flatten():
+                        add(s)
+    return out
+
+
+def prepare(dut):
+    """Fragment + clock domains + io list for a DUT.  ios = every undriven signal (driven by the harness) plus
+    the driven signals that are public attributes of the DUT.  Returns (fragment, ios list, clock names) or
+    raises Unsupported (specials)."""
+    from migen.fhdl.structure import ClockDomain
+    from migen.fhdl.tools import list_signals, list_targets, list_clock_domains
+    pub = public_signals(dut)
+    f = dut.get_fragment()
+    from migen.genlib.cdc import MultiReg
+    bad = [s for s in f.specials if not isinstance(s, MultiReg)]
+    if bad:
+        raise Unsupported("specials: " + ", ".join(sorted({type(s).__name__ for s in bad})))
+    cds = sorted(list_clock_domains(f))
+    for cdn in cds:
+        if cdn not in f.clock_domains:
+            f.clock_domains.append(ClockDomain(cdn))
+    sigs = set(list_signals(f))
+    for cd in f.clock_domains:
+        sigs.add(cd.clk)
+        if cd.rst is not None:
+            sigs.add(cd.rst)
+    from migen.fhdl.tools import list_special_ios
+    sigs |= list_special_ios(f, ins=True, outs=True, inouts=True)
+    targets = list_targets(f) | list_special_ios(f, ins=False, outs=True, inouts=True)
+    undriven = sorted(sigs - targets, key=lambda s: s.duid)
+    pubset = {id(s) for s in pub}
+    driven_pub = sorted([s for s in sigs & targets if id(s) in pubset], key=lambda s: s.duid)
+    ios = undriven + driven_pub
+    # explicit unique names: auto-derived names are degraded on py3.12 (and naming is C02's subject, not C01's)
+    for k, s in enumerate(sorted(sigs, key=lambda s: s.duid)):
+        if s.name_override is None:
+            s.name_override = "n%d" % k
+    return f, ios, [cd.name for cd in f.clock_domains]
